@@ -1,6 +1,6 @@
 (* C14: unchecked indexing and memory-mapped writes always stay inside their buffers. *)
 From Coq Require Import NArith ZArith List Lia Arith.
-From KT Require Import Gen.Generated Gen.Alphabet Gen.GeneratedFacts Gen.UnsafeInv Gen.UnsafeFacts Model.Kmer Model.Show Model.Ops Model.Rows.
+From KT Require Import Gen.Generated Gen.Alphabet Gen.FactsBase Gen.FactTableKmer Gen.UnsafeInv Gen.UnsafeFacts Model.Kmer Model.Show Model.Ops Model.Rows.
 From KT Require Import Model.Pipeline Proof.KmerProof Proof.RevComp Proof.PosMap Proof.Oligo Proof.Batch Proof.RowsProof Proof.LayoutProof.
 Import ListNotations.
 Open Scope N_scope.
